@@ -123,8 +123,40 @@ def run(chk):
     chk.coverage["hashes"] = n_hash
 
 
+ALL64 = (1 << 64) - 1
+
+
+def maybe_bits(x):
+    """Bit positions (as a 64-bit mask) that may be set in the unsigned 64-bit value of an integer term: a cheap
+    known-zero-bits analysis.  A symbolic slot of unknown sign, a sign-extended value and the result of + - * are
+    assumed to reach every bit; a value truncated to an unsigned type of w bits reaches the low w bits only."""
+    if isinstance(x, bool):
+        return 1
+    if isinstance(x, int):
+        return x & ALL64
+    if isinstance(x, tuple) and x:
+        if x[0] == "icast":
+            w = ev.INT_WIDTH.get(x[1])
+            if w and not w[1] and w[0] < 64:
+                return (1 << w[0]) - 1       # truncated to an unsigned type of w bits
+            return ALL64                     # sign extension / wrap of a possibly negative value
+        if x[0] == "iop":
+            a, b = x[2], x[3]
+            if x[1] == "<<" and isinstance(b, int) and 0 <= b < 64:
+                return (maybe_bits(a) << b) & ALL64
+            if x[1] == ">>" and isinstance(b, int) and 0 <= b < 64:
+                return maybe_bits(a) >> b
+            if x[1] in ("|", "^"):
+                return maybe_bits(a) | maybe_bits(b)
+            if x[1] == "&":
+                return maybe_bits(a) & maybe_bits(b)
+    return ALL64
+
+
 def hash_shape(t, slots):
-    """The hash term may contain: integer constants, iop + * ^ << >> |, and hash<T>(leaf) / int leaf reads."""
+    """The hash term may contain: integer constants, iop + * ^ << >> |, and hash<T>(leaf) / int leaf reads.  An OR (AND) of
+    two non-constant operands must combine disjoint bit ranges: otherwise set (clear) bits of one operand overwrite the
+    bits that carry the other one - a value sign-extended to size_t wipes everything packed before it."""
     read = []
 
     def walk(x):
@@ -134,6 +166,14 @@ def hash_shape(t, slots):
             if x[0] == "iop":
                 if x[1] not in ("+", "*", "^", "<<", ">>", "|", "&", "-"):
                     return "integer operator %s" % x[1]
+                if x[1] in ("|", "&") and not isinstance(x[2], int) and not isinstance(x[3], int):
+                    ma, mb = maybe_bits(x[2]), maybe_bits(x[3])
+                    if x[1] == "|" and ma & mb:
+                        return ("`|` combines %s (bits that may be set: %#x) with %s (%#x): where the ranges overlap, set bits of one operand - every bit above the "
+                                "lowest eight when a negative value is sign-extended - overwrite what the other operand carried, so the hash no longer "
+                                "depends on every slot" % (ev.show(x[2])[:60], ma, ev.show(x[3])[:60], mb))
+                    if x[1] == "&":
+                        return "`&` of two computed values %s and %s discards the bits of either that the other clears" % (ev.show(x[2])[:60], ev.show(x[3])[:60])
                 a = walk(x[2])
                 if a is not True:
                     return a
@@ -147,7 +187,7 @@ def hash_shape(t, slots):
             if x[0] == "isym":
                 read.append(x[1])
                 return True
-            if x[0] == "cast":
+            if x[0] in ("cast", "icast"):
                 return walk(x[2])
             return "hash built from %s" % ev.show(x)[:120]
         return "hash built from %r" % (x,)
